@@ -8,8 +8,8 @@ package dawn
 // SUBPROCESS (this test binary re-executed with VERIF_C15_CHILD_DIR set), under a timeout.  Outcome classes:
 //     error      Load or Run returned an error (reported)
 //     executed   the target was executed again
-//     uptodate   the target was reported up to date -- legitimate only when the corrupted record is semantically
-//                the true record (same decoded environment, same dependency stamps, rerun clear)
+//     uptodate   the target was reported up to date -- legitimate only when the corrupted record is, in the fields that
+//                decide it, the true record (byte-identical stamp, same dependency stamps, rerun clear)
 //     died       the subprocess died (panic escaped, fatal error)
 //     hang       the subprocess did not finish within the timeout
 // Output ($VERIF_OUT): record \t <file> \t <corruption kind> \t <detail> \t <class>
@@ -144,17 +144,11 @@ func c15sameRecord(trueRec, gotRec []byte) (same bool, why string) {
 	if got.Data == "" {
 		return false, "no stamp"
 	}
-	wantEnv, err := c15decodeStamp(want.Data)
-	if err != nil {
-		return false, "true stamp unreadable"
-	}
-	gotEnv, err := c15decodeStamp(got.Data)
-	if err != nil {
-		return false, "stamp does not decode"
-	}
-	eq, err := starlark.EqualDepth(wantEnv, gotEnv, 1000)
-	if err != nil || !eq {
-		return false, "decoded environment differs"
+	// The only stamp that may be accepted as up to date is the exact current stamp (the project is unchanged, so
+	// that is the stamp of the true record): a stamp with other bytes -- even one that decodes to an equal
+	// environment -- must make the target out of date.
+	if got.Data != want.Data {
+		return false, "stamp bytes differ from the current stamp"
 	}
 	return true, ""
 }
